@@ -190,7 +190,7 @@ pub fn unbounded<T>() -> (Sender<T>, Receiver<T>) {
 impl<T> Sender<T> {
     pub fn send(&self, msg: T) -> Result<(), SendError<T>> {
         trace(1);
-        let mut g = self.c.m.lock().unwrap();
+        let mut g = self.c.m.lock().unwrap_or_else(|e| e.into_inner());
         loop {
             if g.receivers == 0 {
                 return Err(SendError(msg));
@@ -203,7 +203,7 @@ impl<T> Sender<T> {
             if room {
                 break;
             }
-            g = self.c.cv.wait(g).unwrap();
+            g = self.c.cv.wait(g).unwrap_or_else(|e| e.into_inner());
         }
         g.q.push_back(msg);
         g.pushed += 1;
@@ -223,14 +223,14 @@ impl<T> Sender<T> {
                         None => Ok(()),
                     };
                 }
-                g = self.c.cv.wait(g).unwrap();
+                g = self.c.cv.wait(g).unwrap_or_else(|e| e.into_inner());
             }
         }
         Ok(())
     }
 
     pub fn try_send(&self, msg: T) -> Result<(), TrySendError<T>> {
-        let mut g = self.c.m.lock().unwrap();
+        let mut g = self.c.m.lock().unwrap_or_else(|e| e.into_inner());
         if g.receivers == 0 {
             return Err(TrySendError::Disconnected(msg));
         }
@@ -258,10 +258,10 @@ impl<T> Sender<T> {
         self.send(msg).map_err(|e| SendTimeoutError::Disconnected(e.0))
     }
     pub fn is_empty(&self) -> bool {
-        self.c.m.lock().unwrap().q.is_empty()
+        self.c.m.lock().unwrap_or_else(|e| e.into_inner()).q.is_empty()
     }
     pub fn is_full(&self) -> bool {
-        let g = self.c.m.lock().unwrap();
+        let g = self.c.m.lock().unwrap_or_else(|e| e.into_inner());
         match g.cap {
             None => false,
             Some(0) => true,
@@ -269,10 +269,10 @@ impl<T> Sender<T> {
         }
     }
     pub fn len(&self) -> usize {
-        self.c.m.lock().unwrap().q.len()
+        self.c.m.lock().unwrap_or_else(|e| e.into_inner()).q.len()
     }
     pub fn capacity(&self) -> Option<usize> {
-        self.c.m.lock().unwrap().cap
+        self.c.m.lock().unwrap_or_else(|e| e.into_inner()).cap
     }
     pub fn same_channel(&self, other: &Sender<T>) -> bool {
         Arc::ptr_eq(&self.c, &other.c)
@@ -281,7 +281,7 @@ impl<T> Sender<T> {
 
 impl<T> Clone for Sender<T> {
     fn clone(&self) -> Self {
-        self.c.m.lock().unwrap().senders += 1;
+        self.c.m.lock().unwrap_or_else(|e| e.into_inner()).senders += 1;
         Sender { c: self.c.clone() }
     }
 }
@@ -296,7 +296,7 @@ impl<T> Drop for Sender<T> {
             return;
         }
         trace(4);
-        let mut g = self.c.m.lock().unwrap();
+        let mut g = self.c.m.lock().unwrap_or_else(|e| e.into_inner());
         g.senders -= 1;
         self.c.cv.notify_all();
     }
@@ -310,7 +310,7 @@ impl<T> fmt::Debug for Sender<T> {
 impl<T> Receiver<T> {
     pub fn recv(&self) -> Result<T, RecvError> {
         trace(2);
-        let mut g = self.c.m.lock().unwrap();
+        let mut g = self.c.m.lock().unwrap_or_else(|e| e.into_inner());
         loop {
             if let Some(m) = g.q.pop_front() {
                 g.taken += 1;
@@ -321,11 +321,11 @@ impl<T> Receiver<T> {
             if g.senders == 0 {
                 return Err(RecvError);
             }
-            g = self.c.cv.wait(g).unwrap();
+            g = self.c.cv.wait(g).unwrap_or_else(|e| e.into_inner());
         }
     }
     pub fn try_recv(&self) -> Result<T, TryRecvError> {
-        let mut g = self.c.m.lock().unwrap();
+        let mut g = self.c.m.lock().unwrap_or_else(|e| e.into_inner());
         if let Some(m) = g.q.pop_front() {
             g.taken += 1;
             self.c.cv.notify_all();
@@ -344,10 +344,10 @@ impl<T> Receiver<T> {
         self.recv().map_err(|_| RecvTimeoutError::Disconnected)
     }
     pub fn is_empty(&self) -> bool {
-        self.c.m.lock().unwrap().q.is_empty()
+        self.c.m.lock().unwrap_or_else(|e| e.into_inner()).q.is_empty()
     }
     pub fn is_full(&self) -> bool {
-        let g = self.c.m.lock().unwrap();
+        let g = self.c.m.lock().unwrap_or_else(|e| e.into_inner());
         match g.cap {
             None => false,
             Some(0) => true,
@@ -355,10 +355,10 @@ impl<T> Receiver<T> {
         }
     }
     pub fn len(&self) -> usize {
-        self.c.m.lock().unwrap().q.len()
+        self.c.m.lock().unwrap_or_else(|e| e.into_inner()).q.len()
     }
     pub fn capacity(&self) -> Option<usize> {
-        self.c.m.lock().unwrap().cap
+        self.c.m.lock().unwrap_or_else(|e| e.into_inner()).cap
     }
     pub fn iter(&self) -> Iter<'_, T> {
         Iter { r: self }
@@ -372,7 +372,7 @@ impl<T> Receiver<T> {
 }
 impl<T> Clone for Receiver<T> {
     fn clone(&self) -> Self {
-        self.c.m.lock().unwrap().receivers += 1;
+        self.c.m.lock().unwrap_or_else(|e| e.into_inner()).receivers += 1;
         Receiver { c: self.c.clone() }
     }
 }
@@ -386,7 +386,7 @@ impl<T> Drop for Receiver<T> {
             return;
         }
         trace(5);
-        let mut g = self.c.m.lock().unwrap();
+        let mut g = self.c.m.lock().unwrap_or_else(|e| e.into_inner());
         g.receivers -= 1;
         // like the real crate, messages still queued when the last receiver goes are dropped
         let dead: Vec<T> = if g.receivers == 0 && g.cap != Some(0) {
